@@ -162,7 +162,7 @@ def run_lian_case(case, ruleset, tag, compensate=()):
             f.write(text)
     names = ["%unit_init"] + [e[2] for e in case["entries"]]
     entry = "- method_list: [" + ", ".join("'" + n + "'" for n in names) + "]\n"
-    st = lianrun.write_settings(os.path.join(root, "settings"), entry=entry, source=ruleset.yaml("source"), sink=ruleset.yaml("sink"))
+    st = lianrun.write_settings(os.path.join(root, "settings"), entry=entry, source=ruleset.yaml("source", src_dir), sink=ruleset.yaml("sink", src_dir))
     ws = os.path.join(root, "ws")
     out = {"status": "ok", "flows": [], "raw": 0, "line_mismatch": 0, "unmapped": 0, "texts": {}}
     try:
@@ -252,7 +252,8 @@ def probe_single(item):
 # ---------------------------------------------------------------------------------------------------
 # parent side: attribution of missed flows
 
-DIM_FIELDS = ("sk", "tk", "pos", "chain", "twist", "src_mode", "snk_mode", "src_idx", "snk_idx", "imp", "layout", "place")
+DIM_FIELDS = ("sk", "tk", "pos", "chain", "twist", "src_mode", "snk_mode", "src_idx", "snk_idx", "imp", "layout", "place",
+              "srcin", "targets", "put")
 
 
 def norm_gadget(g):
@@ -276,9 +277,12 @@ def norm_gadget(g):
         g2["layout"] = [0]
     helper_levels = sum(1 for c, v in ch if c in ("param", "ret", "field") or (c == "global" and v == 2)
                         or (c == "broken" and v in ("unrelated-field", "unrelated-object", "callee-drops", "callee-other-param")))
-    if helper_levels == 0:
+    if helper_levels == 0 and not g2.get("srcin"):
         g2["imp"] = "from"
         g2["layout"] = [0]
+    for k in ("srcin", "targets", "put"):
+        if g2.get(k) is None:
+            g2.pop(k, None)
     return g2
 
 
@@ -293,8 +297,10 @@ def chain_text(chain):
 def reference_swaps(g):
     """(dimension name, gadget with that dimension replaced by a reference value), in the order they are tried."""
     out = []
-    if g["src_mode"] != "base" or g["snk_mode"] != "base":
-        out.append(("modes", dict(g, src_mode="base", snk_mode="base")))
+    if g.get("srcin"):
+        out.append(("srcin", dict(g, srcin=None)))
+    if g["src_mode"] != "base" or g["snk_mode"] not in ("base", "multi"):
+        out.append(("modes", dict(g, src_mode="base", snk_mode=g["snk_mode"] if g["snk_mode"] == "multi" else "base")))
     if any(f != 0 for f in g["layout"]) and g["imp"] == "mod":
         out.append(("imp", dict(g, imp="from")))
     if any(f != 0 for f in g["layout"]):
@@ -306,7 +312,8 @@ def reference_swaps(g):
             out.append(("sk", dict(g, sk=sk_ref, place="func" if sk_ref == "param" or g["place"] == "method" else g["place"])))
     for tk_ref in (("call", 0), ("mcall", 0), ("fwrite", 0)):
         if tk_ref != (g["tk"], g["pos"]):
-            out.append(("tk", dict(g, tk=tk_ref[0], pos=tk_ref[1], twist=None)))
+            out.append(("tk", dict(g, tk=tk_ref[0], pos=tk_ref[1], twist=None, targets=None, put=None,
+                                   snk_mode="base" if g["snk_mode"] == "multi" else g["snk_mode"])))
     return out
 
 
@@ -330,6 +337,10 @@ class Atom:
             return False
         if self.modes is not None and (g["src_mode"], g["snk_mode"]) != self.modes:
             return False
+        if getattr(self, "srcin", None) is not None and g.get("srcin") != self.srcin:
+            return False
+        if self.tk is not None and getattr(self, "targets", None) != g.get("targets"):
+            return False
         return True
 
     def strip(self, chain):
@@ -347,7 +358,7 @@ def generalise(g, atom_chain):
     """Generator: which of rule modes / layout / place / source kind / sink kind matter for this failing sub-chain?"""
     cfg = norm_gadget(dict(g, chain=atom_chain))
     relevant = {}
-    for dim in ("modes", "imp", "layout", "place", "sk", "tk"):
+    for dim in ("srcin", "modes", "imp", "layout", "place", "sk", "tk"):
         cands = [sw for d, sw in reference_swaps(cfg) if d == dim]
         if not cands or (dim == "layout" and relevant.get("imp")):
             continue
@@ -358,9 +369,9 @@ def generalise(g, atom_chain):
             swap = None
             for cand in cands:
                 if dim == "sk":
-                    partners = [dict(tk=t, pos=0, twist=None, snk_mode="base") for t in ("call", "mcall")]
+                    partners = [dict(tk=t, pos=0, twist=None, snk_mode="base", targets=None, put=None) for t in ("call", "mcall")]
                 else:
-                    partners = [dict(sk="param", place="func", src_mode="base"), dict(sk="mcall", src_mode="base")]
+                    partners = [dict(sk="param", place="func", src_mode="base", srcin=None), dict(sk="mcall", src_mode="base", srcin=None)]
                 ok = None
                 for pt in partners:
                     ok = yield norm_gadget(dict(cand, chain=[], layout=[0], **pt))
@@ -403,10 +414,14 @@ def generalise(g, atom_chain):
     sk = g["sk"] if relevant.get("sk", True) else None
     tk = g["tk"] if relevant.get("tk", True) else None
     tk_txt = "any" if tk is None else tk + (str(g["pos"]) if tk in ("call", "mcall") and g["pos"] else "")
+    if tk is not None and g.get("targets"):
+        tk_txt += "[targets=" + ",".join(t.replace("\\%", "") for t in g["targets"]) + ";value-at=" + str(g.get("put", g["pos"])) + "]"
     sig = f"{sk or 'any'}->{tk_txt}:via:{chain_text(atom_chain)}"
     if relevant.get("imp"):
         # a helper reached through `import m` + `m.helper(...)`: named by carrier kind, whatever the variant
         sig = f"{sk or 'any'}->{tk_txt}:via:{'+'.join(c for c, _ in atom_chain) or 'direct'}:helper-reached-through-module-import"
+    if relevant.get("srcin"):
+        sig += f":source-in-callee({g['srcin']})"
     if relevant.get("layout"):
         sig += ":multi-file"
     if relevant.get("place"):
@@ -415,8 +430,11 @@ def generalise(g, atom_chain):
     if relevant.get("modes"):
         modes = (g["src_mode"], g["snk_mode"])
         sig += f":rules={g['src_mode']}/{g['snk_mode']}"
-    return Atom(sig, sk, tk, g["pos"], atom_chain, bool(relevant.get("layout")), bool(relevant.get("place")), modes,
+    atom = Atom(sig, sk, tk, g["pos"], atom_chain, bool(relevant.get("layout")), bool(relevant.get("place")), modes,
                 mod_import=bool(relevant.get("imp")))
+    atom.srcin = g.get("srcin") if relevant.get("srcin") else None
+    atom.targets = g.get("targets") if tk is not None else None
+    return atom
 
 
 def attribute(g, atoms):
@@ -632,9 +650,11 @@ def main():
         chk.count("dynamic flows observed in CPython (expected)", len(v["expected"]))
         chk.count("dynamic flows found among the reported flows", len(v["expected"]) - len(v["missed"]))
         chk.count("dynamic run: entries that raised", len(v["dyn_errors"]))
-        if not v["status"].startswith("ok"):
+        dead = not v["status"].startswith("ok")
+        if dead:
             sig = "analysis-died:" + v["status"]
             chk.fail(sig, f"lian run on a generated program ended with {v['status']} {v.get('detail') or ''}", {"program": case, "level": level})
+            chk.count("dynamic flows in programs whose analysis died (not attributed)", len(v["missed"]))
         gad = {g["gid"]: g for g in case["gadgets"]}
         exp_gids = set()
         for pr in v["expected"]:
@@ -656,16 +676,32 @@ def main():
             for c in {c for c, _ in g["chain"] if c != "broken"} or {"direct"}:
                 chk.count(f"carrier {c}: dynamic flows", 1)
             chk.nontrivial_case((g["sk"], g["tk"], chain_text(norm_gadget(g)["chain"])))
-            if not hit:
+            if g.get("srcin"):
+                chk.count("source inside a callee: dynamic flows", 1)
+                if g["srcin"][:2] in ("r2", "r3"):
+                    chk.count("source inside a callee with 2-3 return statements: dynamic flows", 1)
+            if g.get("targets"):
+                chk.count("sink rule with several targets: dynamic flows", 1)
+            for side in ("src_mode", "snk_mode"):
+                if g[side].startswith("ok:"):
+                    chk.count(f"rule restricted to its site ({g[side]}): dynamic flows", 1)
+                    chk.count("restricted rule that applies: dynamic flows", 1)
+            if not hit and not dead:
                 mid = f"{tag}:{gid}"
                 missed[mid] = g
                 level_of[mid] = level
                 missed_info[mid] = {"program": case, "level": level, "pair": list(pr), "gadget": g}
         # generator sanity: positives the generator intended must have been observed dynamically
         for g in case["gadgets"]:
-            intended = (g["twist"] is None and not any(c == "broken" for c, _ in g["chain"])
-                        and g["src_mode"] in ("base", "ok:line", "ok:unit") + (("ext",) if level == "extended" else ())
-                        and g["snk_mode"] in ("base", "ok:line", "ok:unit") + (("ext",) if level == "extended" else ()))
+            dpos, drecv = gen_flow.designated(g)
+            put = g.get("put", g["pos"])
+            put_ok = ((put == "recv" and drecv) or put in dpos) if g["tk"] in ("call", "mcall") else True
+            intended = (g["twist"] is None and not any(c == "broken" for c, _ in g["chain"]) and put_ok
+                        and gen_flow.mode_active(g["src_mode"], level) and gen_flow.mode_active(g["snk_mode"], level))
+            if "decoy_of" in g:
+                chk.count("decoy sites (same name, excluded by the restriction)", 1)
+            if g.get("bad_target"):
+                chk.count("sink rules whose target list has an unknown keyword", 1)
             if intended:
                 chk.count("gadgets intended positive", 1)
                 if g["gid"] not in exp_gids:
@@ -720,6 +756,10 @@ def main():
         for c in gen_flow.CARRIERS + ("direct",):
             chk.require(f"carrier {c}: dynamic flows", per)
         chk.require("multi-file programs", 20 if not thorough else 500)
+        chk.require("source inside a callee with 2-3 return statements: dynamic flows", 15 if not thorough else 300)
+        chk.require("sink rule with several targets: dynamic flows", 8 if not thorough else 150)
+        chk.require("restricted rule that applies: dynamic flows", 20 if not thorough else 400)
+        chk.require("decoy sites (same name, excluded by the restriction)", 20 if not thorough else 400)
         if chk.counters.get("gadgets intended positive but not observed dynamically", 0) or \
                 chk.counters.get("gadgets intended negative but observed dynamically", 0):
             chk.note_inconclusive("generator and dynamic oracle disagree on some gadget (harness fault)")
